@@ -19,7 +19,8 @@ CHECKS = {
             "deterministic simulation: real client vs. reference agent on a virtual-time loop, seeded plans, model oracle, ddmin replay"),
     "C02": ("exploration", "6 C02",
             "Seeded search as C01 plus bulk size and the agent's per-response GETBULK truncation policy (peer nondeterminism drawn "
-            "from the plan); differential against a twin GETNEXT walk of the same plan and against the MIB model.",
+            "from the plan), optionally after an earlier bulk walk of a nested root on the same client; differential against a "
+            "twin GETNEXT walk of the same plan and against the MIB model.",
             "deterministic simulation: bulk walk vs. twin GETNEXT walk and MIB model under seeded agent truncation policies and loss"),
     "C03": ("exploration", "6 C03",
             "Seeded search over byzantine agents (sorted successor overridden by explicit deviations: same/smaller OID, cycles, "
@@ -34,7 +35,7 @@ CHECKS = {
     "C05": ("exploration", "6 C05",
             "Invariant on every datagram reaching the recording sender seam: an independent strict RFC 1157/3416/3412 decoder "
             "must read back the intent record (version, community or v3 header/security parameters/context, PDU type, "
-            "request-id = a clock reading, zero error fields or bulk parameters, OIDs and typed SET values). The simulator "
+            "request-id = a clock reading (folded into Integer32 for wall clocks after 2038), zero error fields or bulk parameters, OIDs and typed SET values). The simulator "
             "contributes the wall clock (request ids across Integer32) and the discovery reply; there is no fault dimension.",
             "deterministic simulation: sender-seam invariant checked by an independent BER/SNMP decoder over seeded argument sweeps"),
     "C06": ("exploration", "6 C06",
@@ -43,9 +44,10 @@ CHECKS = {
             "response seen is decoded/re-encoded by the code under test and compared as content by the independent decoder.",
             "deterministic simulation: agent-side encoding nondeterminism (length forms) seeded per TLV, value and re-encoding oracle"),
     "C07": ("exploration", "6 C07",
-            "Seeded search over operation x wall-clock behaviour (tied, constant, advancing on every read, jumping) x agent "
+            "Seeded search over operation x wall-clock behaviour (tied, constant, advancing on every read, jumping; dates up to and after 2038) x agent "
             "behaviour at the k-th request (echo, id+-1, arbitrary, previous id, foreign community/version, foreign discovery "
-            "msgID); echo must succeed exactly as the tied-clock twin run, everything else must raise.",
+            "msgID; optionally with error-status noSuchName); echo must succeed exactly as the tied-clock twin run, everything else must "
+            "raise and must never end an operation normally.",
             "deterministic simulation: simulated wall clock (stepping/jumping) and id-perturbing agent, twin-run oracle"),
     "C08": ("exploration", "6 C08",
             "The matrix status x index class x binding list x operation x protocol (20 976 cells) is enumerated completely in "
@@ -117,10 +119,11 @@ CHECKS = {
             "malformed ones, listener alive afterwards (counted-work budget for the whole run).",
             "deterministic simulation: trap emitters over a lossy/duplicating/reordering simulated network, per-arrival delivery oracle"),
     "C20": ("fault_enumeration", "6 C20",
-            "For each base message (v1/v2c/v3 responses at all levels, discovery replies, USM reports, a trap) produced in "
-            "simulation: every single-bit flip, every truncation, every octet value at every TLV header position (13-value "
-            "dictionary in quick), seeded pairs/triples, indefinite lengths, random strings up to 65507 octets and deep "
-            "nesting are delivered by the rewrite fault (before authentication on the wire, after authentication by the agent "
+            "For each base message (v1/v2c/v3 responses at all levels incl. mid-walk GETNEXT/GETBULK answers, discovery replies, "
+            "USM reports, a trap) produced in simulation: every single-bit flip, every truncation, every octet value at every "
+            "TLV header position (16-value dictionary in quick), seeded pairs/triples, indefinite lengths, random strings up to "
+            "65507 octets, deep nesting, well-formed oversized and degenerate (empty) messages, applied to one datagram or to "
+            "every later datagram of the operation, are delivered by the rewrite fault (before authentication on the wire, after authentication by the agent "
             "mutating the scoped PDU before encrypting/signing); oracle: counted work (function entries, calls, loop jumps via "
             "sys.monitoring) <= A + 200 x len, traced memory <= 16 MiB + 64 x len, outcome a result or an exception, and the "
             "same client's next request behaves as in the unmutated run.",
@@ -180,13 +183,19 @@ def main() -> None:
         "notes": "Exit codes: 0 held, 1 VIOLATION (replay file printed), 2 HARNESS-ERROR. VERIF_SEED selects the explored plans; "
                  "VERIF_JOBS the worker count; VERIF_REPO_SRC the tree under test (default /repo/src). Known findings: "
                  "/verif/known_findings.json (2 open entries sharing one root cause in the external x690 package, C19/C20; "
-                 "25 fixed entries (17 fix: commits) whose minimised plans under /verif/regressions are re-run by the checks). Self-tests: "
+                 "%d fixed entries (%d fix: commits) whose minimised plans under /verif/regressions are re-run by the checks). Self-tests: " % _fixed_counts() +
                  "`sim/check.py selftest reference|determinism|evidence|fidelity|sensitivity`. Seeded defects from independent "
                  "sub-agents and the checks that catch them: /verif/seeded, DESIGN.md section 13.",
     }
     with open(os.path.join(ROOT, "MANIFEST.json"), "w") as fh:
         json.dump(manifest, fh, indent=1)
         fh.write("\n")
+
+
+def _fixed_counts():
+    k = json.load(open(os.path.join(ROOT, "known_findings.json")))
+    fixed = [f for f in k["findings"] if f["status"] == "fixed"]
+    return len(fixed), len(set(f["fix_commit"] for f in fixed))
 
 
 if __name__ == "__main__":
